@@ -27,12 +27,12 @@ def run(ctx):
     if not lean_ok:
         ctx.escalated = True
     import gen.reassembler_slots as gs
-    thorough = ctx.tier == "thorough" or ctx.escalated
+    thorough = ctx.tier == "thorough" or ctx.deep
     g.diff(ctx, tier_n(ctx, 2000, 30000), exhaustive_too=thorough)
     # second layer: Data.SlotBuf (transcription of the slot/allocation code) against the same real object,
     # compared including the chunk boundaries of every pop and report()
     gs.diff(ctx, tier_n(ctx, 1000, 15000), exhaustive_too=thorough)
-    if ctx.tier == "thorough" or ctx.escalated:
+    if ctx.tier == "thorough" or ctx.deep:
         ctx.exhaustive = True
         ctx.extra["reassembler_exhaustive"] = (f"all op sequences of length <= 4 over {len(g.EX_FULL)} ops (6 offsets x 4 lengths, FIN variants, "
                                                f"reads, single pop, skips) and length <= 5 over {len(g.EX_SMALL)} ops")
